@@ -192,8 +192,21 @@ func (x *gen) refine(t target) sg.Refine {
 func (x *gen) usesNode(ref string, gr *sg.Grouping, feats []string, allMods []*sg.Mod) *sg.Node {
 	g := x.g
 	u := &sg.Node{Kind: "uses", Name: ref}
-	var ts []target
-	targets(gr.Kids, "", &ts)
+	var all, ts []target
+	targets(gr.Kids, "", &all)
+	// a refine or augment path through a node that has its own deprecated/obsolete status is a reference from the (current)
+	// uses to a more obsolete definition, which the compiler rejects: such targets are left alone
+	for _, t := range all {
+		ok := true
+		for _, o := range all {
+			if o.node.Status != "" && (t.path == o.path || strings.HasPrefix(t.path, o.path+"/")) {
+				ok = false
+			}
+		}
+		if ok {
+			ts = append(ts, t)
+		}
+	}
 	if len(ts) > 0 && g.Chance(2, 3, "refine") {
 		nr := 1 + g.Pick(2, "nrefine")
 		seen := map[string]bool{}
@@ -227,7 +240,9 @@ func (x *gen) usesNode(ref string, gr *sg.Grouping, feats []string, allMods []*s
 		if k.When != "" || k.Kind == "uses" {
 			topHasWhen = true
 		}
-		if k.Status != "" || k.Kind == "uses" {
+		// a node's own weaker status (deprecated, obsolete) is kept below a deprecated uses; an explicit "current" there
+		// would contradict the uses and is avoided
+		if k.Status == "current" || k.Kind == "uses" {
 			topHasStatus = true
 		}
 	}
@@ -237,7 +252,7 @@ func (x *gen) usesNode(ref string, gr *sg.Grouping, feats []string, allMods []*s
 	if len(feats) > 0 && g.Chance(1, 4, "usesiff") {
 		u.IfFeatures = []string{feats[g.Pick(len(feats), "usesfeat")]}
 	}
-	if !topHasStatus && g.Chance(1, 5, "usesstatus") {
+	if !topHasStatus && g.Chance(1, 3, "usesstatus") {
 		u.Status = "deprecated"
 	}
 	return u
@@ -274,6 +289,12 @@ func genCase(t *rapid.T) Case {
 				refs = append(refs, v.ref)
 			}
 			gr.Kids = x.body(2, refs, g.Chance(2, 3, "nesteduses"))
+			// some nodes of the body carry their own (weaker than current) status
+			for _, k := range gr.Kids {
+				if k.Kind != "uses" && k.Kind != "choice" && k.Status == "" && g.Chance(1, 4, "ownstatus") {
+					k.Status = []string{"deprecated", "obsolete"}[g.Pick(2, "whichstatus")]
+				}
+			}
 			if g.Chance(1, 3, "gdesc") {
 				gr.Desc = "grouping " + gr.Name
 			}
